@@ -456,9 +456,9 @@ func c10Build(r *hx.Rng, blocks []*c10Blk) (string, map[string]string, string) {
 
 func c10RtGen(g *hx.Gen) {
 	env := c10EnvField(c10EnvTable)
-	N := 5000
+	N := 12000
 	if g.Thorough() {
-		N = 100000
+		N = 120000
 	}
 	for i := 0; i < N; i++ {
 		r := g.Rng
